@@ -458,19 +458,75 @@ def _parser_stream(prev):
     return dict(inp=inp, w=w, off0=off0, nils=nils)
 
 
-def _distant_equal_run(prev, n, wnd, mm):
-    """True iff the block of n bytes at the parse position is a run of one byte
-    and an equal run of at least mm bytes starts at distance >= wnd before the
-    block inside the buffered data."""
+def _gsap_sorted_extent(prev, blk):
+    """Length (in stream coordinates) of the data the suffix array of GSAP covers
+    when the rejected Parse runs: gsap sorts the whole buffer whenever a block
+    reaches beyond the sorted part; Shrink (delta > 0) and Reset drop the array.
+    None if the history contains a Parse(nil) (the witness then stays broad)."""
+    inp_len, w, off0, srt = 0, 0, 0, 0
+    for e in prev:
+        op = e.get('op')
+        if op == 'write':
+            inp_len += max(e.get('n', 0), 0)
+        elif op == 'readfrom':
+            inp_len += sum(len(c[3]) for c in e.get('calls', []))
+        elif op == 'parsenil':
+            return None
+        elif op == 'parse':
+            nb = min(blk, inp_len - w) if blk > 0 else inp_len - w
+            if nb > 0 and w + nb > srt:
+                srt = inp_len
+            w += e.get('n', 0)
+        elif op == 'shrink' and e.get('delta', 0) > 0:
+            srt = 0
+        elif op == 'reset' and e.get('err') == '':
+            inp_len, w, off0, srt = len(e.get('data') or []), 0, 0, 0
+    nb = min(blk, inp_len - w) if blk > 0 else inp_len - w
+    if nb > 0 and w + nb > srt:
+        srt = inp_len
+    return srt
+
+
+def _distant_equal_run(prev, n, wnd, mm, blk=0):
+    """Witness of known finding D18.  True iff the block of n bytes at the parse
+    position is a run of one byte c and the situation in which the pinned GSAP
+    fails is present: GSAP looks at the two suffix-array neighbours of a
+    position only; inside a run the neighbour that would give a match (the
+    position in front, one byte more of the run) is displaced when an earlier
+    run of c, WindowSize or more bytes back, contains a position with exactly
+    the same remaining run length K (K counted in the data the suffix array
+    covers) - i.e. when that earlier run is at least K bytes long.  An equal
+    run that is SHORTER than K cannot displace the neighbour: a block of
+    literals in that situation is not D18 and is reported as a violation.
+    Without a reliable K (Parse(nil) in the history, blk unknown) the broad
+    form (an equal run of >= mm bytes beyond the window) is used."""
     st = _parser_stream(prev)
     inp, w, off0 = st['inp'], st['w'], st['off0']
-    blk = inp[w:w + n]
-    if not blk or any(b != blk[0] for b in blk):
+    b = inp[w:w + n]
+    if not b or any(x != b[0] for x in b):
         return False
-    c = blk[0]
-    for j in range(off0, w - wnd + 1):
-        if all(0 <= j + k < len(inp) and inp[j + k] == c for k in range(mm)):
+    c = b[0]
+    srt = _gsap_sorted_extent(prev, blk) if blk else None
+    need = mm
+    if srt is not None and srt >= w + n:
+        k = 0
+        while w + k < srt and inp[w + k] == c:
+            k += 1
+        # the first mm+1 positions of the block must all fail for the block to
+        # carry more than mm literals; the last of them has K - mm bytes left
+        need = max(mm, k - mm)
+    j = off0
+    lim = w - wnd + 1
+    while j < lim:
+        if inp[j] != c:
+            j += 1
+            continue
+        r = j
+        while r < len(inp) and r < w and inp[r] == c:
+            r += 1
+        if r - j >= need:
             return True
+        j = r
     return False
 
 
